@@ -140,6 +140,27 @@ def r_polarity(repo, rep, R='R17.1'):
             ln_t = dc[2][2][1] if len(dc[2][2]) > 1 else None
             rep.check(ln_t is not None and 'shape' in show(ln_t) and show(ln_t).endswith('[1]'), 'R17.2', wf, 'filters:mask-length',
                       'the mask has one entry per tag column', 'mask length is %s' % (show(ln_t) if ln_t else None))
+    # every sentence of the batch is gone through: no path through the sentence loop leaves before the token loop
+    fors = [n for n in ast.walk(f) if isinstance(n, ast.For)]
+    store_nodes = [e[-1] for _, e in uniq.values()]
+    inner_l = [l for l in fors if any(sn in list(ast.walk(l)) for sn in store_nodes)]
+    inner_l = [l for l in inner_l if not any(l2 is not l and l2 in list(ast.walk(l)) and l2 in inner_l for l2 in fors)]
+    outer_l = [l for l in fors if inner_l and l is not inner_l[0] and inner_l[0] in list(ast.walk(l))]
+    if inner_l and outer_l:
+        o_, i_ = outer_l[0], inner_l[0]
+        skipping = []
+        for st, out in SymExec(f, unroll=1, no_inline=(MASK,)).run():
+            if out == 'raise':
+                continue
+            ent = [k for k, e in enumerate(st.events) if e[0] == 'loop-enter' and e[-1] is o_]
+            if not ent:
+                continue
+            reached = any(e[0] in ('loop-enter', 'loop-skip') and e[-1] is i_ for e in st.events[ent[0]:])
+            if not reached:
+                br = [e for e in st.events[ent[0]:] if e[0] == 'branch']
+                skipping.append(show(br[-1][1])[:60] if br else 'a path without the token loop')
+        rep.check(not skipping, 'R17.2', wf, 'filters:every-sentence', 'every sentence of the batch reaches the token loop',
+                  'some sentences are left unfiltered: the sentence loop moves on before the tokens are looked at when %s' % sorted(set(skipping))[:2])
     # returns its inputs, validated first
     rets = {show(st.ret) for st, o in SymExec(f, unroll=1, no_inline=(MASK,)).run() if o == 'return'}
     first_call = None
